@@ -9,6 +9,7 @@ exit 2: harness failure / inconclusive (build error, watchdog twice, monitors ob
 import fnmatch
 import importlib
 import json
+import zlib
 import os
 import re
 import signal
@@ -285,6 +286,13 @@ def run_jobs(jobs, progress=True):
                 vbuild.build_driver(j.driver, j.flavor, j.backend, j.extra_srcs, j.extra_flags, j.extra_ld)
             except vbuild.BuildError as e:
                 raise HarnessFailure("build failed for %s/%s/%s:\n%s" % (j.driver, j.flavor, j.backend, str(e)[-3000:]))
+    # which thread: about half of the native (no tool, optim/debug) jobs run their whole driver on a freshly created thread
+    # instead of the process's initial thread (decided by job name and seed, recorded in the job's env so replays reproduce it)
+    sd = int(os.environ.get("VERIF_SEED", "1") or 1)
+    for j in jobs:
+        if j.tool is None and j.flavor in ("optim", "debug") and j.exe is None and "VH_ON_THREAD" not in j.env:
+            if (zlib.crc32(j.name.encode()) + sd) % 2 == 0:
+                j.env = dict(j.env, VH_ON_THREAD="1")
     with ThreadPoolExecutor(max(1, min(len(jobs), NCPU))) as ex:
         results = list(ex.map(run_job, jobs))
     return results
@@ -532,5 +540,6 @@ def simple_run(pid, tier, seed, t0, jobs, level, rule, assumptions, min_evaluati
         extra.update(pcov or {})
     if agg["evaluations"] < min_evaluations and not viols:
         inconclusive.append("monitors observed only %d evaluations (< %d)" % (agg["evaluations"], min_evaluations))
+    extra.setdefault("driver_processes", {"total": len(jobs), "whole_driver_on_a_fresh_thread": sum(1 for j in jobs if j.env.get("VH_ON_THREAD"))})
     cov = generic_coverage(agg, rule, extra)
     return finish(pid, tier, seed, level, viols, inconclusive, cov, assumptions, t0)
